@@ -24,6 +24,7 @@ def build_harness():
     return BIN
 
 def scratch(prefix):
+    prefix = re.sub(r"[^A-Za-z0-9_.-]+", "_", prefix)[:40]
     os.makedirs(WORK, exist_ok=True)
     return tempfile.mkdtemp(prefix=prefix + "-", dir=WORK)
 
